@@ -46,7 +46,7 @@ func vrfH_C06() {
 	}
 	doc := &spec.Swagger{}
 	doc.Definitions = spec.Definitions{}
-	// edge[i][j]: definition i refers to definition j (as a property, as items, or as an allOf member)
+	// edge[i][j]: definition i refers to definition j (as a property, as items, as an allOf member or as additionalItems)
 	edge := make([][]bool, n)
 	for i := 0; i < n; i++ {
 		edge[i] = make([]bool, n)
@@ -59,7 +59,7 @@ func vrfH_C06() {
 			}
 			edge[i][j] = true
 			r := c06Ref(names[j])
-			switch (i + j) % 3 {
+			switch (i + j + vrfParam("edgeshift", 0)) % 4 { // distinct holder kind for each target j of one definition (n <= 4)
 			case 0:
 				if s.Properties == nil {
 					s.Properties = map[string]spec.Schema{}
@@ -69,6 +69,9 @@ func vrfH_C06() {
 				s.Items = &spec.SchemaOrArray{Schema: &r}
 			case 2:
 				s.AllOf = append(s.AllOf, r)
+			case 3:
+				// additionalItems without items: a position an analyzer could forget
+				s.AdditionalItems = &spec.SchemaOrBool{Allows: true, Schema: &r}
 			}
 		}
 		doc.Definitions[names[i]] = s
